@@ -363,5 +363,4 @@ theorem alloc_correct (alias : Bool) (init : List Inst) (last : Inst)
     have hpos : 1 ≤ inst.out := strictOuts_pos ir hwf.outs inst.out (by simp [outs]; exact ⟨inst, hinst, rfl⟩)
     exact out_not_input alias ir inst.out (by omega)
 
-#print axioms alloc_correct
 end P.Alloc
